@@ -1100,8 +1100,8 @@ mod imp {
         }
       };
       // the text side only hands the best text hits of each segment to the blend (at least
-      // `limit` per segment): a document outside its segment's top-`limit` text hits may be
-      // blended with a text score of 0
+      // `limit + 1` per segment): a document that is not certainly among them may be blended
+      // with a text score of 0
       let mut text_top: BTreeSet<&str> = BTreeSet::new();
       let mut text_cut = false;
       for sg in &built.segs {
@@ -1110,10 +1110,13 @@ mod imp {
         if th.len() > limit {
           text_cut = true;
         }
-        let floor = th.get(limit.saturating_sub(1)).map(|x| x.0).unwrap_or(f64::NEG_INFINITY);
-        for (b, ver) in th {
-          if b >= floor {
-            text_top.insert(ver);
+        // guaranteed to be handed over = within the best `limit + 1` whatever the order among
+        // equal text scores is (the implementation breaks ties by doc id): at most `limit`
+        // other text hits of the segment score at least as high
+        for (b, ver) in th.iter() {
+          let at_least = th.iter().filter(|(b2, v2)| v2 != ver && b2 >= b).count();
+          if at_least <= limit {
+            text_top.insert(*ver);
           }
         }
       }
